@@ -400,6 +400,15 @@ fn random_op(r: &mut Rng) -> Op {
 pub fn snapshot_race(v: &Verdicts, rounds: usize) -> (u64, u64) {
     use std::sync::atomic::{AtomicBool, Ordering};
     let (mut done, mut overlapped) = (0u64, 0u64);
+    // injected delay: the snapshot dawdles before it marks each key as stored
+    nundb::verif::set_point_callback(Some(std::sync::Arc::new(|site: &str| {
+        if site == "db.map:set_value_version" && ON_SNAPSHOT_THREAD.with(|f| f.get()) {
+            let until = std::time::Instant::now() + std::time::Duration::from_micros(40);
+            while std::time::Instant::now() < until {
+                std::hint::spin_loop();
+            }
+        }
+    })));
     for r in 0..rounds {
         let dir = fresh_dir("c06-race");
         let node = Run::start_node(&dir, false);
@@ -429,16 +438,26 @@ pub fn snapshot_race(v: &Verdicts, rounds: usize) -> (u64, u64) {
                         let mut s = Session::new();
                         s.call(&dbs, "use-db one tok-one");
                         let mut mine = BTreeMap::new();
-                        let mut pass = 0;
-                        // keep writing until the snapshotter has completed a few snapshots while we were at it
-                        while snaps.load(Ordering::Acquire) < 4 && pass < 400 {
+                        // three paced passes over the writer's keys: a key written in one pass is dirty, a snapshot copies it,
+                        // and the next pass writes it again while that snapshot is still working through its copies; the last
+                        // pass is every key's last write, so whatever the race did to it stays visible
+                        for pass in 0..3 {
                             for i in 0..KEYS {
                                 let (k, val) = (format!("w{}k{}", w, i), format!("r{}p{}", r, pass));
                                 if !s.call(&dbs, &format!("set {} {}", k, val)).is_error() {
                                     mine.insert(k, val);
                                 }
+                                let until = std::time::Instant::now() + std::time::Duration::from_micros(15);
+                                while std::time::Instant::now() < until {
+                                    std::hint::spin_loop();
+                                }
                             }
-                            pass += 1;
+                            // let at least one snapshot start on what this pass wrote
+                            let seen = snaps.load(Ordering::Acquire);
+                            let deadline = std::time::Instant::now() + std::time::Duration::from_millis(200);
+                            while snaps.load(Ordering::Acquire) == seen && std::time::Instant::now() < deadline {
+                                std::thread::yield_now();
+                            }
                         }
                         s.disconnect(&dbs);
                         mine
@@ -448,6 +467,7 @@ pub fn snapshot_race(v: &Verdicts, rounds: usize) -> (u64, u64) {
             let (dbs2, dir2, stop2, snaps2) = (dbs.clone(), dir.clone(), &stop, &snaps);
             let snapper = sc.spawn(move || {
                 nundb::verif::set_dir(Some(dir2));
+                ON_SNAPSHOT_THREAD.with(|f| f.set(true));
                 let mut a = Session::new();
                 a.call(&dbs2, "auth admin pwd");
                 while !stop2.load(Ordering::Acquire) {
@@ -463,7 +483,7 @@ pub fn snapshot_race(v: &Verdicts, rounds: usize) -> (u64, u64) {
             let _ = snapper.join();
         });
         done += 1;
-        if snaps.load(Ordering::Acquire) >= 4 {
+        if snaps.load(Ordering::Acquire) >= 3 {
             overlapped += 1;
         }
         // (1) nothing acknowledged was rolled back
@@ -500,7 +520,12 @@ pub fn snapshot_race(v: &Verdicts, rounds: usize) -> (u64, u64) {
         drop(node2);
         let _ = std::fs::remove_dir_all(&dir);
     }
+    nundb::verif::set_point_callback(None);
     (done, overlapped)
+}
+
+thread_local! {
+    static ON_SNAPSHOT_THREAD: std::cell::Cell<bool> = std::cell::Cell::new(false);
 }
 
 pub fn run(tier: &str) -> i32 {
@@ -567,7 +592,7 @@ pub fn run(tier: &str) -> i32 {
     });
     let s = stats.into_inner().unwrap();
     let (race_rounds, race_overlapped) = snapshot_race(&v, if tier == "thorough" { 300 } else { 25 });
-    ev.set("free_running_snapshot_race", json!({"rounds": race_rounds, "rounds_with_at_least_4_snapshots_completed_while_the_writers_ran": race_overlapped}));
+    ev.set("free_running_snapshot_race", json!({"rounds": race_rounds, "rounds_with_at_least_3_snapshots_completed_while_the_writers_ran": race_overlapped}));
     ev.evaluations = s.histories;
     ev.distinct_nontrivial = s.nontrivial.len() as u64;
     ev.rule = format!("histories = all sequences of length {} over a 10-step alphabet that contain a snapshot request ({} systematic) + {} seeded random sequences of length 5-40 over 2 databases x 3 keys x 6 value classes (empty, 1 byte, 7 bytes, 300+ bytes, multi-byte UTF-8, small integers), half of them with the real replication loop/oplog running; every history ends with declutter + restart + comparison; non-trivial = distinct history that completed a snapshot and issued at least one write/remove/increment on a key already persisted (status Ok/Updated/Deleted)", depth, systematic, n_random);
